@@ -66,7 +66,7 @@ groups = [
     g('zbc64', PL + 'zbc64', unwind=65, replace=[PL + 'sbc64(unsigned_long_int)/c_sbc64'], replay=rp('zbc64', 'x')),
     # complement32 computes `1 << nBit` in int: for nBit == 31 that is signed-shift UB with the value every
     # two's-complement compiler produces; the property is about the value, so the signed-overflow check is off here
-    g('complement32', PL + 'complement32', checks=['--bounds-check', '--pointer-check', '--undefined-shift-check'], replay=rp('complement32', 'v', 'n')),
+    g('complement32', PL + 'complement32', checks=['--no-signed-overflow-check'], replay=rp('complement32', 'v', 'n')),
     g('complement64', PL + 'complement64', replay=rp('complement64', 'v', 'n')),
     g('isPow2_32', PL + 'isPow2_32', replay=rp('isPow2_32', 'x')),
     g('isPow2_64', PL + 'isPow2_64', replay=rp('isPow2_64', 'x')),
@@ -90,6 +90,21 @@ groups = [
     g('log2', 'cds::beans::log2', replace=['cds::beans::log2floor(unsigned_long_int)/c_log2floor', 'cds::beans::is_power2(unsigned_long_int)/c_is_power2'], replay=rp('log2', 'n')),
 ]
 
+SPLIT = ['VX_SPLIT']
+for N, W in [(1, 32), (2, 32), (4, 32), (6, 32), (8, 32), (16, 32), (8, 64), (16, 64)]:
+    tier = 'quick' if (N, W) in [(2, 32), (8, 32), (16, 64)] else 'thorough'
+    for kind, cls in (('sb', 'split_bitstring'), ('bs', 'byte_splitter')):
+        for fn in ('cut', 'safe_cut'):
+            nm = '%s_%d_%d_%s' % (kind, N, W, fn)
+            groups.append(g(nm, 'cds::algo::%s<bytes[%d],%d,uint%d_t>::%s' % (cls, N, N, W, fn), defines=SPLIT, unwind=W + 2, tier=tier,
+                            timeout=600, replay=dict(driver='replay.cpp', case=nm, vars=['count'])))
+for tag, W in [('u16', 16), ('i16', 16), ('u32', 32), ('i32', 32), ('u64', 64), ('i64', 64)]:
+    for fn in ('cut', 'safe_cut'):
+        nm = 'ns_%s_%s' % (tag, fn)
+        groups.append(g(nm, 'cds::algo::number_splitter<%s>::%s' % (tag, fn), defines=SPLIT, timeout=300,
+                        replay=dict(driver='replay.cpp', case='ns_%s_%s' % (tag, fn), vars=['number', 'count'])))
+groups.append(lemma('lemma_sb_reconstruct', 'h_lemma_sb_reconstruct', ['c_sb_cut32'], 'lemma over the split_bitstring::cut contract', defines=SPLIT))
+
 UNIT = dict(
     properties=['C25'],
     stage=[
@@ -102,6 +117,10 @@ UNIT = dict(
         dict(kind='fragment', path='cds/algo/bitop.h', name='BitOps8', anchor=r'template <> struct BitOps<8>', body_only=True),
         dict(kind='verbatim', path='cds/algo/int_algo.h'),
         dict(kind='verbatim', path='cds/algo/base.h'),
+        dict(kind='shadow', path='cds/algo/split_bitstring.h', rewrites=[
+            dict(lit='return count ? cut( count ) : 0;', to='if ( count ) return cut( count ); return 0;', count=3,
+                 why='CBMC C++ front end types `c ? f() : 0` as int (type of the literal) instead of the common type uint_type, truncating 64-bit results; the if-form is the same C++ semantics'),
+        ]),
         dict(kind='shadow', path='cds/compiler/bitop.h', rewrites=[
             dict(lit='#       include <cds/compiler/gcc/amd64/bitop.h>', to='#       include <vx_asm_bitop.h>', count=1,
                  why='inline asm (bsr/bsf) is invisible to CBMC: body-less declarations with assumed contracts'),
@@ -109,6 +128,19 @@ UNIT = dict(
     ],
     cxx=['shim.cpp'], c=['contracts.c'], cxxflags=['-Dconstexpr=', '-Dnoexcept=', '-Dexplicit='],
     extra_scan=['split_contracts.inc'],
+    # sabotage self-test: property-breaking edits of the STAGED copy (never /repo); the named obligation must fail
+    sabotage=[
+        dict(name='swar_mask', quick=True, target='cds/algo/bit_reversal.h', lit='x = ( ( ( x & 0xf0f0f0f0 ) >> 4 ) | ( ( x & 0x0f0f0f0f ) << 4 ));',
+             to='x = ( ( ( x & 0xf0f0f0f0 ) >> 4 ) | ( ( x & 0x0f0f0f0e ) << 4 ));', count=1, groups=['swar32'], expect_fail=r'w_swar32\.postcondition'),
+        dict(name='lookup_table_entry', target='cds/algo/bit_reversal.h', lit='0x0E, 0x8E, 0x4E, 0xCE,', to='0x0E, 0x8E, 0x4E, 0xCF,', count=1,
+             groups=['lookup32'], expect_fail=r'w_lookup32\.postcondition'),
+        dict(name='cut_mask_int', target='cds/algo/split_bitstring.h', lit='uint64_t const mask = count < 64 ? ( uint64_t( 1 ) << count ) - 1 : ~uint64_t( 0 );',
+             to='uint64_t const mask = ( 1 << count ) - 1;', count=1, groups=['ns_u64_cut'], expect_fail=r'w_ns_u64_cut\.postcondition|cut\.undefined-shift'),
+        dict(name='safe_cut_rest', quick=True, target='cds/algo/split_bitstring.h', lit='unsigned const rest = static_cast<unsigned>( last_ - cur_ ) * c_nBitPerByte;',
+             to='unsigned const rest = static_cast<unsigned>( last_ - cur_ - 1 ) * c_nBitPerByte;', count=1, groups=['bs_2_32_safe_cut'], expect_fail=r'w_bs_2_32_safe_cut\.postcondition'),
+        dict(name='ceil2_off_by_one', target='cds/algo/int_algo.h', lit='return ( size_t( 1 ) << i ) < n ? i + 1 : i;', to='return ( size_t( 1 ) << i ) <= n ? i + 1 : i;', count=1,
+             groups=['log2ceil'], expect_fail=r'w_log2ceil\.postcondition'),
+    ],
     groups=groups,
     trusted_base=[
         'CBMC 6.11 C++ front end (partial) and DFCC contract instrumentation',
